@@ -468,14 +468,20 @@ def ivp_cross_case(col, seed, order, tname, variant="forward"):
     y0 = [float(v) for v in prob.jets(x0)]
     # deliberately *not* the initial data of the manufactured solution: a different member of the solution family
     y0 = [v + float(g.uniform(-1, 1)) for v in y0]
+    if variant.startswith("integer-y0"):
+        # initial values given as integers (a list of ints or an integer array): the same numbers as floats must give the same solution
+        y0 = [int(np.sign(v) or 1) * int(g.integers(1, 5)) for v in y0]
+        if variant.endswith("array"):
+            y0 = np.array(y0, dtype=int)
     xs = np.concatenate(([a, b], g.uniform(a, b, 6)))
     rtol, atol = IVP_TOL["DOP853"]
-    inp = {"kind": "ivpx", "seed": int(seed), "order": order, "transform": tname, "variant": variant, "x_span": [x0, x1], "y0": y0,
+    inp = {"kind": "ivpx", "seed": int(seed), "order": order, "transform": tname, "variant": variant, "x_span": [x0, x1], "y0": [float(v) for v in y0],
            "problem": prob.describe()}
 
     def chk():
-        st = solve_ode_ivp((x0, x1), prob.f, prob.coeffs, list(y0), tf, rtol=rtol, atol=atol)
-        sd = solve_ode_ivp((x0, x1), prob.f, prob.coeffs, list(y0), rtol=rtol, atol=atol)
+        y0_t = y0.copy() if isinstance(y0, np.ndarray) else list(y0)
+        st = solve_ode_ivp((x0, x1), prob.f, prob.coeffs, y0_t, tf, rtol=rtol, atol=atol)
+        sd = solve_ode_ivp((x0, x1), prob.f, prob.coeffs, [float(v) for v in y0], rtol=rtol, atol=atol)
         ot, od = np.asarray(st(xs), dtype=float), np.asarray(sd(xs), dtype=float)
         if ot.shape != od.shape:
             return False, f"shapes differ: transformed {ot.shape}, direct {od.shape}"
@@ -960,6 +966,8 @@ def public_family(col, seed, tier, only=None):
                     ivp_case(col, seed, order, tname, METHODS[(idx // 2) % len(METHODS)], "forward")
                 if thorough or idx % 3 == 2:
                     ivp_cross_case(col, seed, order, tname, "backward" if idx % 2 else "forward")
+                if order >= 2 and (thorough or idx % 2 == 0):
+                    ivp_cross_case(col, seed, order, tname, "integer-y0-array" if idx % 4 == 0 else "integer-y0-list")
                 if supports_domain_end(tname) and (thorough or order == 1 + t % 3):
                     ivp_case(col, seed, order, tname, "DOP853", "domain-end")
         for order in (1, 2, 3):
